@@ -23,8 +23,10 @@ META = {
     "environment called from both threads (points at every line of generated code); every output must equal the isolated render, no call "
     "may raise, no deadlock, inputs unchanged.",
     "note": "GIL sequential consistency, line granularity; jinja2.utils.Lock and the module-level lexer cache's lock are replaced "
-    "by cooperative locks.  Bounded pool (9 templates), threads <= 3, preemption bounds as stated; a schedule cap per "
-    "harness is reported when hit.",
+    "by cooperative locks.  Bounded pool (the POOL list, ~35 templates incl. data variants), threads <= 3, preemption "
+    "bounds as stated; a schedule cap per harness is reported when hit.  The snapshot compared around every render holds "
+    "the data, the environment globals, the policies (environment and package defaults), the template globals and every "
+    "module-level container of the jinja2 package.",
     "design_ref": "DESIGN.md §4 C29, §3 E3",
 }
 
